@@ -113,6 +113,28 @@ def make_fn(scenario):
                 ctx.true("own_instance_runs_it_once", len(seen("extra")) == 1)
                 if seen("extra"):
                     check_defaults("registering_instance_unaffected_by_other_call", seen("extra")[0], skip=(k2,))
+            elif scenario == "register_no_defaults":
+                # instances created without the default functions: registrations stay with their instance
+                d1 = dg.Diagnostic(add_default_functions=False)
+                d1.register_function(Rec("extra"), None, "extra")
+                d2 = dg.Diagnostic(add_default_functions=False)
+                ctx.true("other_empty_instance_has_no_functions", [n for n, _, _ in d2._functions] == [])
+                ctx.true("own_instance_has_exactly_its_function", [n for n, _, _ in d1._functions] == ["extra"])
+                Rec.log = []
+                d2.diagnose_network(None, report_style=None, **{k1: v1})
+                ctx.true("other_empty_instance_runs_nothing", len(Rec.log) == 0)
+                d3 = dg.Diagnostic()
+                ctx.true("default_instance_unaffected", [n for n, _, _ in d3._functions] == names)
+                Rec.log = []
+                d1.diagnose_network(None, report_style=None, **{k2: v2})
+                ctx.true("own_instance_runs_it_once", len(seen("extra")) == 1 and len(Rec.log) == 1)
+                if seen("extra"):
+                    kw = seen("extra")[0]
+                    ctx.true("no_defaults_means_only_own_options", set(kw) == {k2})
+                    if k2 in kw:
+                        ctx.eq("own_option_value", kw[k2], v2)
+                d2.register_function(Rec("second"), None, "second")
+                ctx.true("later_registration_elsewhere_not_visible", [n for n, _, _ in d1._functions] == ["extra"])
             elif scenario == "own_call":
                 d1 = dg.Diagnostic()
                 d1.diagnose_network(None, report_style=None, **{k1: v1})
@@ -129,7 +151,7 @@ def make_fn(scenario):
 
 
 def instances(tier):
-    return [Inst(s, make_fn(s), nvars=8, meta=dict(scenario=s), samples=2) for s in ("other_instance", "later_call", "register", "own_call")]
+    return [Inst(s, make_fn(s), nvars=8, meta=dict(scenario=s), samples=2) for s in ("other_instance", "later_call", "register", "register_no_defaults", "own_call")]
 
 
 LEVEL_TEXT = ("Bounded model checking of the real Diagnostic plumbing (__init__, register_function, diagnose_network) with symbolic option "
